@@ -297,7 +297,7 @@ type Summary struct {
 var (
 	evRe   = regexp.MustCompile(`^. (\d+) snapshots? (passed|failed|added|updated|skipped)$`)
 	listRe = regexp.MustCompile(`^› (\d+) snapshot (files?|tests?) (obsolete|removed)$`)
-	itemRe = regexp.MustCompile(`^  ↳ • (.*)$`)
+	itemRe = regexp.MustCompile(`^  ↳ +• (.*)$`)
 )
 
 func parseSummary(out string) *Summary {
@@ -446,8 +446,14 @@ func abstractRun(a *absCtx, r *ScenarioRun, drvDir string) ([]map[string]any, er
 					"count": cnt, "run": p.Spec.Run})
 			case "hstart", "exit":
 			case "begin":
+				if p.Real && p.Spec.Run == "" && idle(p, e.T) {
+					continue // a test without steps and no -run filter: irrelevant to the contract
+				}
 				out = append(out, map[string]any{"ev": "begin", "h": s.ID, "t": e.T})
 			case "end":
+				if p.Real && p.Spec.Run == "" && idle(p, e.T) {
+					continue
+				}
 				out = append(out, map[string]any{"ev": "end", "h": s.ID, "t": e.T, "hasfs": hasfs, "fs": a.fsOf(dir0, nil)})
 			case "skip":
 				logs := decodeAll(e.Logs)
@@ -523,4 +529,21 @@ func abstractRun(a *absCtx, r *ScenarioRun, drvDir string) ([]map[string]any, er
 		}
 	}
 	return out, nil
+}
+
+// idle: a top-level test of the driver to which the script gives no steps
+func idle(p *Proc, name string) bool {
+	if strings.Contains(name, "/") {
+		return false
+	}
+	td := p.Tests[name]
+	if td == nil {
+		return true
+	}
+	for _, ex := range td.Execs {
+		if len(ex) > 0 {
+			return false
+		}
+	}
+	return true
 }
